@@ -63,6 +63,10 @@ int probe() { own_t a{own_t::allocator_type()}; a.reserve(100); const own_t& ca 
 int probe() { B m[1] = {5}; view_t v(m, 9); own_t a(std::size_t(9), true); const own_t& ca = a; const view_t& cv = v; int n = 0; for (auto it = ca.block_begin(); it != ca.block_end(); ++it) n += int(*it); n += int(*(cv.block_begin() + 0)); return n; }
 #elif C03_PROBE == 21   // (not named) std::fill over the iterators
 int probe() { own_t a(std::size_t(9), true); std::fill(a.begin() + 1, a.begin() + 4, false); return int(a.count()); }
+#elif C03_PROBE == 22   // (not named as such: users of the iterators) std::reverse/rotate/iter_swap/copy/copy_backward/count/find/equal
+int probe() { own_t a(std::size_t(9), true); B m[2] = {5, 0}; view_t v(m, 9); const view_t& cv = v; std::reverse(a.begin() + 1, a.begin() + 4); std::rotate(a.begin(), a.begin() + 2, a.end());
+              std::iter_swap(a.begin(), a.begin() + 8); std::copy(cv.cbegin(), cv.cbegin() + 3, a.begin() + 1); std::copy_backward(a.begin(), a.begin() + 3, a.begin() + 5);
+              return int(std::count(a.cbegin(), a.cend(), true)) + int(std::find(a.begin(), a.end(), true) - a.begin()) + int(std::equal(a.cbegin(), a.cend(), cv.cbegin())); }
 #else
 #error "unknown probe"
 #endif
